@@ -162,8 +162,8 @@ def run(ctx):
     for v in exes:
         for (name, _), m in zip(scn, meas):
             stride = 1 if (ctx.thorough and m["N"] <= small) else 4
-            cstride = 1 if v == "rel" else ctx.q(8, 4)
-            nshards = max(1, (m["N"] // stride) // 6000)
+            cstride = 1 if v == "rel" else ctx.q(16, 4)
+            nshards = max(1, (m["N"] // stride) // ctx.q(3000, 6000))
             for sh in range(nshards):
                 jobs.append((v, exes[v], paths[name], name, sh, nshards, stride, cstride, nstep))
     core.pmap(ctx, _chunk, jobs, nchunks=len(jobs))
